@@ -212,7 +212,16 @@ def _seq(rec, case, rng):
             if ok and allscalar and not np.isscalar(T2) and np.ndim(T2) != 0:
                 rec.violation(dict(sig, oracle='all-scalar index returns a scalar'), c, {'type': type(T2).__name__}); return
         elif op == 'squeeze':
-            ok, T2 = guarded(rec, c, sig, T.squeeze); A2 = np.squeeze(A)
+            sing = [i for i, n_ in enumerate(np.shape(A)) if n_ == 1]
+            if sing and rng.random() < 0.6:
+                # explicit axes as numpy.squeeze takes them: one axis or a tuple, counted from the front or from the back
+                sel = [int(i) for i in rng.choice(sing, size=int(rng.integers(1, len(sing) + 1)), replace=False)]
+                sel = [i - len(np.shape(A)) if rng.random() < 0.5 else i for i in sel]
+                ax = sel[0] if (len(sel) == 1 and rng.random() < 0.5) else tuple(sel)
+                sig = dict(sig, axis='explicit'); rec.count('squeeze_explicit_axes')
+                ok, T2 = guarded(rec, c, sig, T.squeeze, ax); A2 = np.squeeze(A, ax)
+            else:
+                ok, T2 = guarded(rec, c, sig, T.squeeze); A2 = np.squeeze(A)
         elif op == 'nway':
             d = len(shp)
             nops = d if rng.random() < 0.6 else int(rng.integers(0, d + 1))
@@ -249,6 +258,13 @@ def _seq(rec, case, rng):
                 T2 = T
         elif op == 'to_canonical':
             ok, T2 = guarded(rec, c, sig, tensor.CanonicalTensor.from_tensor, T); A2 = A
+            if ok and tk == 'TuckerTensor' and np.abs(A).max(initial=0.0) > 0:
+                # the same conversion for a tensor of small magnitude: faithful relative to the tensor, not to 1
+                fac = float(10.0 ** rng.uniform(-25, -8))
+                ok3, C3 = guarded(rec, c, dict(sig, data='small magnitude'), tensor.CanonicalTensor.from_tensor, tensor.TuckerTensor(T.Us, T.X * fac))
+                if ok3:
+                    rec.check_close('conversion_small_magnitude', float(np.abs(C3.asarray() - A * fac).max()), 1e-10 * float(np.abs(A * fac).max()),
+                                    dict(sig, data='small magnitude'), c, {'factor': fac})
         elif op == 'to_tucker':
             ok, T2 = guarded(rec, c, sig, tensor.TuckerTensor.from_tensor, T); A2 = A
         elif op == 'pad':
